@@ -1,8 +1,9 @@
 SPECIFICATION Spec
 CONSTANTS
   MaxParts = 3
+  PartEnds = {1, 2, 3}
   DevTornTailFailsGet = TRUE
   DevTimescaleZeroExits = FALSE
-INVARIANTS TypeOK Shape ServesComplete LostInLastPart PatchAfterParts ClassPredictionSound DeviationsExplainAll
+INVARIANTS TypeOK Shape ServesComplete LostInLastPart PatchAfterParts TrueDurationRecorded ClassPredictionSound DeviationsExplainAll
 INVARIANT EmitClasses
 CHECK_DEADLOCK FALSE
